@@ -530,6 +530,11 @@ class Result:
         self.errors = []
         self.aborted = 0
         self.tt_decisions = 0
+        self.sigs = []          # short hashes of every leaf description (distinct-case counting survives leaf truncation)
+
+    def note_leaf(self, leaf):
+        import hashlib
+        self.sigs.append(hashlib.sha1(json.dumps(leaf, sort_keys=True, default=str).encode()).hexdigest()[:12])
 
     def absorb_stats(self, st):
         self.tt_decisions += st.get("tt", 0)
@@ -548,6 +553,7 @@ class Result:
                                forks=o.forks, obligations=o.obligations, discharged=o.discharged, tt=o.tt_decisions))
         self.violations += o.violations
         self.leaves += o.leaves
+        self.sigs += o.sigs
         self.errors += o.errors
         self.aborted += o.aborted
         return self
@@ -587,6 +593,8 @@ def explore(fn, mode="reexec", max_paths=None, keep_leaves=True):
             res.errors.append("inconclusive: %s" % e)
         res.absorb_stats(_stats_of(ctx))
         res.violations += ctx.violations
+        if leaf is not None:
+            res.note_leaf(leaf)
         if keep_leaves and leaf is not None:
             res.leaves.append(leaf)
         if res.errors:
@@ -646,6 +654,7 @@ def _explore_fork(fn, max_paths, keep_leaves):
                 if rec.get("path"):
                     res.paths += 1
                     if rec.get("leaf") is not None:
+                        res.note_leaf(rec["leaf"])
                         res.leaves.append(rec["leaf"])
                 if rec.get("aborted"):
                     res.aborted += 1
